@@ -2,6 +2,11 @@ package main
 
 import (
 	"fmt"
+	"go/types"
+	"sort"
+	"strings"
+
+	"golang.org/x/tools/go/ssa"
 )
 
 func init() {
@@ -17,6 +22,8 @@ func init() {
 			ruleW2(r)
 			ruleS1(r)
 			ruleE1(r)
+			ruleD1(r)
+			ruleB1(r, le)
 		},
 	})
 }
@@ -51,5 +58,113 @@ func ruleL1(r *Run, le *LockEngine) {
 	r.Stat("acquire_sites", sites)
 	for _, v := range le.Aliases.verified {
 		r.Note("verified lock alias cond.L == embedded RWMutex: " + v)
+	}
+}
+
+// ruleD1: plain (non-select) sends on channels taken from a waiter table must not be able to block.
+func ruleD1(r *Run) {
+	r.Begin("D1", "dispatcher sends cannot block: wherever a goroutine performs a plain blocking send on a channel it looked up in a map field (a waiter table), every channel ever stored into that table is created with capacity >= 1; otherwise a waiter that has left stalls the dispatcher and every later caller", 3)
+	p := r.P
+	tables := map[string]bool{}
+	for _, fn := range p.Funcs {
+		allInstrs(fn, func(ins ssa.Instruction) {
+			s, ok := ins.(*ssa.Send)
+			if !ok {
+				return
+			}
+			for _, l := range p.Leaves(s.Chan, provOpts{}) {
+				if strings.HasPrefix(l, "elem:/") {
+					tables[strings.TrimPrefix(l, "elem:")] = true
+				}
+			}
+		})
+	}
+	var names []string
+	for t := range tables {
+		names = append(names, t)
+	}
+	sort.Strings(names)
+	for _, t := range names {
+		chanCapRule(r, t, 1)
+	}
+	r.Stat("waiter_tables_with_plain_sends", len(names))
+}
+
+// ruleB1: the state change that ends a blocking retry loop must not need a lock the loop's owner holds.
+func ruleB1(r *Run, le *LockEngine) {
+	r.Begin("B1", "a lock that some function holds across a blocking retry (retry.Do) must not be held, or waited for, before a status cell is set to its terminal Closed value in a function that takes that lock: the retry loop ends only when it sees Closed, so publishing Closed after acquiring the lock deadlocks Close against the redial", 1)
+	p := r.P
+	// locks held across retry.Do
+	blocking := map[*types.Var]string{}
+	for _, c := range p.moduleCalls("/internal/retry.Do", "/internal/retry.Retry.Do") {
+		fn := c.Parent()
+		fi := le.Info(fn)
+		for k := range le.HeldAt(c) {
+			if f := fi.keyField[k]; f != nil {
+				blocking[f] = fnName(fn) + " (" + p.pos(c.Pos()) + ")"
+			}
+		}
+	}
+	r.Stat("locks_held_across_blocking_retry", len(blocking))
+	closedC, okC := p.enumConst("/iscp", "connStatusClosed")
+	if !okC {
+		r.Undecided("anchor connStatusClosed", "constant not found")
+		return
+	}
+	n := 0
+	for _, fn := range p.Funcs {
+		if fnPkgPath(fn) != modPath+"/iscp" {
+			continue
+		}
+		// functions that publish Closed
+		var pubs []ssa.Instruction
+		allInstrs(fn, func(ins ssa.Instruction) {
+			c, ok := ins.(*ssa.Call)
+			if !ok {
+				return
+			}
+			cf := c.Call.StaticCallee()
+			if cf == nil || recvTypeName(cf) != "connStatus" || !(strings.HasPrefix(cf.Name(), "Swap") || strings.HasPrefix(cf.Name(), "CompareAndSwap")) {
+				return
+			}
+			last := c.Call.Args[len(c.Call.Args)-1]
+			if v, isC := constInt(last); isC && v == closedC {
+				pubs = append(pubs, ins)
+			}
+		})
+		if len(pubs) == 0 {
+			continue
+		}
+		fi := le.Info(fn)
+		name := fnName(fn)
+		for _, pub := range pubs {
+			n++
+			// every acquisition of a blocking lock in this function must come after the publication
+			bad := ""
+			allInstrs(fn, func(ins ssa.Instruction) {
+				c, ok := ins.(*ssa.Call)
+				if !ok {
+					return
+				}
+				if op, recv := classifyLockCall(&c.Call); op == opLock || op == opRLock {
+					pt := pathOf(recv)
+					if pt == nil {
+						return
+					}
+					if f := pt.Last(); f != nil {
+						if owner, isBlocking := blocking[f]; isBlocking {
+							_ = fi
+							if !dominatesInstr(pub, ins) {
+								bad = fmt.Sprintf("%s is acquired at %s before (or without) the publication of Closed at %s; %s holds it across a blocking retry that ends only on Closed", le.Aliases.canonKey(pt), p.pos(c.Pos()), posOf(p, pub), owner)
+							}
+						}
+					}
+				}
+			})
+			r.Check(name+" publishes Closed before taking a redial-held lock", bad == "", posOf(p, pub), name, "publication of the terminal status precedes every acquisition of a lock held across retry.Do. "+bad)
+		}
+	}
+	if n == 0 {
+		r.Undecided("publication sites", "no site sets connStatusClosed")
 	}
 }
